@@ -72,18 +72,16 @@ def lname(s: str) -> str:
 
 
 class Printer:
-    def __init__(self, ndim, ty, mode, consts):
+    """sympy expression -> Lean term over a generic ordered field `K`; transcendental atoms go
+    through the parameter `T : Transc K` (T.sin, T.pi)"""
+
+    def __init__(self, ndim, consts):
         self.ndim = ndim
-        self.ty = ty  # "K" | "ℝ" | "Float"
-        self.mode = mode  # "alg" | "real" | "float"
+        self.ty = "K"
         self.consts = consts  # log of recognised constants
+        self.uses_T = False
 
     def rat(self, r: Fraction) -> str:
-        if self.mode == "float":
-            if r.denominator == 1:
-                return f"({r.numerator}.0 : Float)" if r >= 0 else f"(-{-r.numerator}.0 : Float)"
-            s = f"(({abs(r.numerator)}.0 : Float) / {r.denominator}.0)"
-            return s if r >= 0 else f"(-{s})"
         if r.denominator == 1:
             return f"({r.numerator} : {self.ty})" if r >= 0 else f"(-{-r.numerator} : {self.ty})"
         if r >= 0:
@@ -91,25 +89,18 @@ class Printer:
         return f"(-({-r.numerator} / {r.denominator}) : {self.ty})"
 
     def flt(self, c: float) -> str:
-        if self.mode in ("real", "float"):
-            pm = pi_multiple(c)
-            r, how = float_to_rational(c)
-            # prefer a plain small rational when one is bit-exact
-            if how == "small":
-                self.consts.append({"float": repr(c), "as": f"{r}"})
-                return self.rat(r)
-            if pm is not None:
-                kind, r = pm
-                self.consts.append({"float": repr(c), "as": f"{r}{'*' if kind == 'mul' else '/'}pi"})
-                pi = "Real.pi" if self.mode == "real" else "(3.141592653589793 : Float)"
-                op = "*" if kind == "mul" else "/"
-                return f"({self.rat(r)} {op} {pi})"
-            raise TranslationFailure(f"unrecognised float constant {c!r}")
         r, how = float_to_rational(c)
-        if how != "small":
-            raise TranslationFailure(f"float constant {c!r} is not a small rational")
-        self.consts.append({"float": repr(c), "as": f"{r}"})
-        return self.rat(r)
+        if how == "small":
+            self.consts.append({"float": repr(c), "as": f"{r}"})
+            return self.rat(r)
+        pm = pi_multiple(c)
+        if pm is not None:
+            kind, r = pm
+            self.consts.append({"float": repr(c), "as": f"{r}{'*' if kind == 'mul' else '/'}pi"})
+            self.uses_T = True
+            op = "*" if kind == "mul" else "/"
+            return f"({self.rat(r)} {op} T.pi)"
+        raise TranslationFailure(f"unrecognised float constant {c!r}")
 
     def acc(self, a) -> str:
         parts = []
@@ -143,11 +134,8 @@ class Printer:
         if e.is_Float:
             return self.flt(float(e))
         if e is sp.pi:
-            if self.mode == "real":
-                return "Real.pi"
-            if self.mode == "float":
-                return "(3.141592653589793 : Float)"
-            raise TranslationFailure("pi in algebraic kernel")
+            self.uses_T = True
+            return "T.pi"
         if e.is_Symbol:
             return lname(e.name)
         if isinstance(e, sp.Add):
@@ -165,15 +153,12 @@ class Printer:
             if ex.is_Integer:
                 n = int(ex)
                 if n == -1:
-                    return f"({self.p(b)})⁻¹" if self.mode != "float" else f"(1.0 / {self.p(b)})"
+                    return f"({self.p(b)})⁻¹"
                 if n > 0:
-                    return f"({self.p(b)} ^ {n})" if self.mode != "float" else "(" + " * ".join([self.p(b)] * n) + ")"
-                if self.mode != "float":
-                    return f"(({self.p(b)} ^ {-n}))⁻¹"
-                return "(1.0 / (" + " * ".join([self.p(b)] * (-n)) + "))"
+                    return f"({self.p(b)} ^ {n})"
+                return f"(({self.p(b)} ^ {-n}))⁻¹"
             raise TranslationFailure(f"unsupported power {sp.srepr(e)}")
         if isinstance(e, sp.Piecewise):
-            out = None
             pairs = list(e.args)
             if pairs[-1].cond is not sp.true:
                 raise TranslationFailure("Piecewise without default branch")
@@ -182,15 +167,10 @@ class Printer:
                 out = f"(if {self.cond(pr.cond)} then {self.p(pr.expr)} else {out})"
             return out
         if isinstance(e, sp.Abs):
-            if self.mode == "float":
-                return f"(Float.abs {self.p(e.args[0])})"
             return f"|{self.p(e.args[0])}|"
         if isinstance(e, sp.sin):
-            if self.mode == "real":
-                return f"(Real.sin {self.p(e.args[0])})"
-            if self.mode == "float":
-                return f"(Float.sin {self.p(e.args[0])})"
-            raise TranslationFailure("sin in algebraic kernel")
+            self.uses_T = True
+            return f"(T.sin {self.p(e.args[0])})"
         raise TranslationFailure(f"unsupported expression node {type(e).__name__}: {e}")
 
 
@@ -209,22 +189,36 @@ def _has_pi_float(e) -> bool:
 # --------------------------------------------------------------------------- naming
 
 
+def lean_kernel_name(k, width=None):
+    """Lean name of a captured kernel: python stencil name, `_vec` when the kernel acts on arrays with a
+    leading component axis, `_w<width>` for kernels with an iteration slice (width = |slice bound|)"""
+    base = k.name.lstrip("_")
+    m = re.search(r"_(\d)d(_|$)", base)
+    declared = int(m.group(1)) if m else k.ndim
+    nm = base
+    if k.ndim != declared:
+        nm += "_vec"
+    if k.slice is not None:
+        if width is None:
+            bounds = {abs(int(b)) for s_ in k.slice for b in (s_.start, s_.stop) if b is not None}
+            if len(bounds) != 1:
+                raise TranslationFailure(f"cannot infer width of sliced kernel {k.name}: {k.slice}")
+            width = bounds.pop()
+        nm += f"_w{width}"
+    return nm
+
+
 def kernel_lean_names(kernels):
     """assign a unique Lean name to every distinct captured kernel"""
     names = {}
     used = {}
     for key, rec in kernels.items():
         k = rec["kernel"]
-        base = k.name.lstrip("_")
-        m = re.search(r"_(\d)d(_|$)", base)
-        declared = int(m.group(1)) if m else k.ndim
-        nm = base
-        if k.ndim != declared:
-            nm += "_vec"
-        if k.slice is not None:
-            if len(rec["widths"]) != 1:
-                raise TranslationFailure(f"sliced kernel {k.name} seen with widths {rec['widths']}")
-            nm += f"_w{next(iter(rec['widths']))}"
+        if k.slice is not None and len(rec["widths"]) != 1:
+            raise TranslationFailure(f"sliced kernel {k.name} seen with widths {rec['widths']}")
+        nm = lean_kernel_name(k)
+        if k.slice is not None and nm != lean_kernel_name(k, next(iter(rec["widths"]))):
+            raise TranslationFailure(f"slice bounds of {k.name} do not match the generator's width option")
         if nm in used:
             raise TranslationFailure(f"two distinct kernel bodies map to the Lean name {nm}")
         used[nm] = key
@@ -265,7 +259,7 @@ def translate(out_dir=GEN_DIR, seed=0):
     os.makedirs(out_dir, exist_ok=True)
     os.makedirs(CACHE, exist_ok=True)
 
-    alg, real, flt, table, listing, checks = [], [], [], [], [], []
+    alg, table, listing, checks = [], [], [], []
     rng = random.Random(seed)
     consts = []
     for key in sorted(kernels, key=lambda k: names[k]):
@@ -304,17 +298,16 @@ def translate(out_dir=GEN_DIR, seed=0):
             params_s = scal
             params_f = [lname(f) for f in read_fields]
             entry["outputs"].append({"field": out, "def": dn, "params_scalars": params_s, "params_fields": read_fields})
-            for mode, ty, sink in (("alg", "K", alg), ("real", "ℝ", real), ("float", "Float", flt)):
-                if (mode == "alg") == trans:
-                    continue
-                pr = Printer(k.ndim, ty, mode, consts if mode != "float" else [])
-                body = pr.p(rhs)
-                sparams = " ".join(f"({s} : {ty})" for s in params_s)
-                fparams = " ".join(f"({f} : {field_ty(k.ndim, ty)})" for f in params_f)
-                kw = "noncomputable def" if mode == "real" else "def"
-                head = f"{kw} {dn}{'_f' if mode == 'float' else ''} {sparams} {fparams} : {field_ty(k.ndim, ty)} :=\n  fun {idx} =>\n    {body}\n"
-                doc = f"/-- `{k.qualname}` ({k.module}); output `{out}`; ghost {k.ghost}; slice {entry['slice']} -/\n"
-                sink.append(doc + head)
+            pr = Printer(k.ndim, consts)
+            body = pr.p(rhs)
+            if pr.uses_T != trans:
+                raise TranslationFailure(f"transcendental classification mismatch for {dn}")
+            tparam = "(T : Transc K) " if trans else ""
+            sparams = " ".join(f"({s_} : K)" for s_ in params_s)
+            fparams = " ".join(f"({f} : {field_ty(k.ndim, 'K')})" for f in params_f)
+            head = f"def {dn} {tparam}{sparams} {fparams} : {field_ty(k.ndim, 'K')} :=\n  fun {idx} =>\n    {body}\n"
+            doc = f"/-- `{k.qualname}` ({k.module}); output `{out}`; ghost {k.ghost}; slice {entry['slice']} -/\n"
+            alg.append(doc + head)
             # self-check points
             for t in range(3):
                 checks.append(_make_check(k, lhs, rhs, dn, trans, rng))
@@ -327,15 +320,10 @@ def translate(out_dir=GEN_DIR, seed=0):
                 "variable {K : Type} [Field K] [LinearOrder K] [IsStrictOrderedRing K]\n\n")
         f.write("\n".join(alg))
         f.write("\nend Sopht.Gen\n")
-    with open(os.path.join(out_dir, "KernelsReal.lean"), "w") as f:
-        f.write(header + "import SophtVerif.Core.Grid\nimport Mathlib.Analysis.SpecialFunctions.Trigonometric.Basic\n\n"
-                "set_option linter.unusedVariables false\nset_option linter.style.nameCheck false\n\nnamespace Sopht.Gen\n\n")
-        f.write("\n".join(real))
-        f.write("\nend Sopht.Gen\n")
-    with open(os.path.join(out_dir, "KernelsFloat.lean"), "w") as f:
-        f.write(header + "import SophtVerif.Core.Grid\n\nset_option linter.unusedVariables false\nset_option linter.style.nameCheck false\n\nnamespace Sopht.Gen\n\n")
-        f.write("\n".join(flt))
-        f.write("\nend Sopht.Gen\n")
+    for stale in ("KernelsReal.lean", "KernelsFloat.lean"):
+        if os.path.exists(os.path.join(out_dir, stale)):
+            os.remove(os.path.join(out_dir, stale))
+    _write_calls(out_dir, header, table)
     _write_table(out_dir, header, table)
     _write_selfcheck(out_dir, header, checks)
     with open(os.path.join(CACHE, "kernels.json"), "w") as f:
@@ -401,59 +389,91 @@ def _lean_rat(v: Fraction, ty="ℚ"):
 
 
 def _write_selfcheck(out_dir, header, checks):
-    lines = [header, "import SophtVerif.Gen.Kernels", "import SophtVerif.Gen.KernelsFloat", "import Mathlib.Data.Rat.Defs",
-             "import Mathlib.Algebra.Order.Field.Rat", "", "open Sopht Sopht.Gen", "",
-             "def ratChecks : List (String × ℚ × ℚ) := ["]
-    rat_entries, flt_entries = [], []
+    lines = [header, "import SophtVerif.Gen.Kernels", "import SophtVerif.Core.RatTransc", "",
+             "open Sopht Sopht.Gen", "", "def ratChecks : List (String × ℚ × ℚ × Bool) := ["]
+    entries = []
     for c in checks:
         nd = c["ndim"]
         idx = IDX[nd]
         fargs = []
         for f in c["fields"]:
             pts = [(off, v) for (fn, off), v in c["acc_vals"].items() if fn == f]
-            ty = "Float" if c["trans"] else "ℚ"
-            body = "0" if not c["trans"] else "0.0"
+            body = "0"
             for off, v in pts:
                 cnd = " ∧ ".join(f"{a} = {o}" for a, o in zip(idx, off))
-                val = _lean_rat(v) if not c["trans"] else f"(({v.numerator}.0 : Float) / {v.denominator}.0)".replace("(-", "(-")
-                if c["trans"] and v < 0:
-                    val = f"(-(({-v.numerator}.0 : Float) / {v.denominator}.0))"
-                body = f"if {cnd} then {val} else ({body})"
+                body = f"if {cnd} then {_lean_rat(v)} else ({body})"
             fargs.append(f"(fun {' '.join(idx)} => {body})")
-        if not c["trans"]:
-            sargs = " ".join(_lean_rat(c["scal_vals"][s]) for s in c["scalars"])
-            zero = " ".join("0" for _ in idx)
-            rat_entries.append(f'  ("{c["def"]}", ({c["def"]} (K := ℚ) {sargs} {" ".join(fargs)}) {zero}, {_lean_rat(c["expected"])})')
+        sargs = " ".join(_lean_rat(c["scal_vals"][s]) for s in c["scalars"])
+        zero = " ".join("0" for _ in idx)
+        targ = "ratTransc " if c["trans"] else ""
+        if c["trans"]:
+            exp = Fraction(c["expected"])
         else:
-            sv = []
-            for s in c["scalars"]:
-                v = c["scal_vals"][s]
-                sv.append(f"(({v.numerator}.0 : Float) / {v.denominator}.0)")
-            zero = " ".join("0" for _ in idx)
-            flt_entries.append(f'  ("{c["def"]}", ({c["def"]}_f {" ".join(sv)} {" ".join(fargs)}) {zero}, ({c["expected"]!r} : Float))')
-    lines.append(",\n".join(rat_entries))
-    lines.append("]")
-    lines.append("")
-    lines.append("def floatChecks : List (String × Float × Float) := [")
-    lines.append(",\n".join(flt_entries))
+            exp = c["expected"]
+        entries.append(f'  ("{c["def"]}", ({c["def"]} (K := ℚ) {targ}{sargs} {" ".join(fargs)}) {zero}, {_lean_rat(exp)}, {"true" if c["trans"] else "false"})')
+    lines.append(",\n".join(entries))
     lines.append("]")
     lines.append("""
 def main : IO UInt32 := do
   let mut bad := 0
-  for (n, got, want) in ratChecks do
-    if got != want then
+  let mut nT := 0
+  for (n, got, want, approx) in ratChecks do
+    if approx then
+      nT := nT + 1
+      let err := |got - want|
+      if !(err ≤ (1 / 1000000000 : ℚ) * (1 + |want|)) then
+        IO.println s!"SELFCHECK-MISMATCH {n} got={got} want={want}"
+        bad := bad + 1
+    else if got != want then
       IO.println s!"SELFCHECK-MISMATCH {n} got={got} want={want}"
       bad := bad + 1
-  for (n, got, want) in floatChecks do
-    let err := Float.abs (got - want)
-    if !(err <= 1e-9 * (1.0 + Float.abs want)) then
-      IO.println s!"SELFCHECK-MISMATCH {n} got={got} want={want}"
-      bad := bad + 1
-  IO.println s!"SELFCHECK rat={ratChecks.length} float={floatChecks.length} bad={bad}"
+  IO.println s!"SELFCHECK rat={ratChecks.length - nT} float={nT} bad={bad}"
   return (if bad == 0 then 0 else 1)
 """)
     with open(os.path.join(out_dir, "SelfCheck.lean"), "w") as f:
         f.write("\n".join(lines))
+
+
+def _write_calls(out_dir, header, table):
+    """call constructors: trace data and semantics built from the same arguments"""
+    L = [header, "import SophtVerif.Gen.Kernels", "import SophtVerif.Core.Program", "",
+         "set_option linter.unusedVariables false", "set_option linter.style.nameCheck false", "",
+         "namespace Sopht.Gen", "",
+         "variable {B K : Type} [DecidableEq B] [Field K] [LinearOrder K] [IsStrictOrderedRing K]", ""]
+    for e in table:
+        nd = e["ndim"]
+        nm = e["lean"]
+        T = "(T : Transc K) " if e["transcendental"] else ""
+        Targ = "T " if e["transcendental"] else ""
+        scal = e["scalars"]
+        flds = e["fields"]  # all formals, sorted
+        sc_params = " ".join(f"({x} : K)" for x in scal)
+        sc_list = ", ".join(f'("{x}", {x})' for x in scal)
+        if nd in (2, 3):
+            d = nd
+            fparams = " ".join(f"({lname(f)} : B)" for f in flds)
+            binds = ", ".join(f'("{f}", {lname(f)})' for f in flds)
+            writes = []
+            for o in e["outputs"]:
+                args = " ".join(f"(s {lname(f)})" for f in o["params_fields"])
+                writes.append(f"({lname(o['field'])}, fun s => {o['def']} {Targ}{' '.join(scal)} {args})")
+            L.append(f"def call_{nm} {T}{sc_params} {fparams} (r : Rect{d}) : Call{d} B K :=\n"
+                     f"  {{ kid := \"{nm}\", binds := [{binds}], scal := [{sc_list}], region := r,\n"
+                     f"    writes := [{', '.join(writes)}] }}\n")
+        if nd in (3, 4):
+            d = nd - 1
+            fparams = " ".join(f"({lname(f)} : VecBuf B)" for f in flds)
+            binds = " ++ ".join(f'((comps ncomp).map fun c => ("{f}", {lname(f)} c))' for f in flds)
+            ws = []
+            for o in e["outputs"]:
+                args = " ".join(f"(fun c' => s ({lname(f)} c'))" for f in o["params_fields"])
+                ws.append(f"((comps ncomp).map fun c => ({lname(o['field'])} c, fun s => ({o['def']} {Targ}{' '.join(scal)} {args}) c))")
+            L.append(f"def vcall_{nm} {T}(ncomp : ℕ) {sc_params} {fparams} (r : Rect{d}) : Call{d} B K :=\n"
+                     f"  {{ kid := \"{nm}\", binds := {binds}, scal := [{sc_list}], region := r,\n"
+                     f"    writes := {' ++ '.join(ws)} }}\n")
+    L.append("end Sopht.Gen\n")
+    with open(os.path.join(out_dir, "Calls.lean"), "w") as f:
+        f.write("\n".join(L))
 
 
 def _write_table(out_dir, header, table):
